@@ -55,7 +55,10 @@ def judge(fam, ops):
         spec_line = sp if sp is not None else mm
         c_ok_spec = fam.spec_match(op, c, spec_line)
         if mm == "ub" or mm.startswith("fault"):
-            # model predicts undefined behaviour / memory fault at this op: a property failure in itself
+            # model predicts undefined behaviour / memory fault at this op: a property failure in itself — unless the
+            # translator refused the current source (the model then runs on placeholder / stale facts): only a correspondence break
+            if not getattr(fam, "model_trusted", True):
+                return first_thm or first_model or {"kind": "model", "at": i, "detail": "op %r: the model (on facts the translator refused) predicts %s; implementation %r" % (op, mm, c)}
             return {"kind": "spec", "at": i, "detail": "model predicts %s at op %r; implementation printed %r" % (mm, op, c)}
         if not c_ok_spec:
             return {"kind": "spec", "at": i, "detail": "op %r: implementation %r, spec %r (model %r)" % (op, c, spec_line, mm)}
@@ -71,7 +74,7 @@ def judge(fam, ops):
             first_model = {"kind": "model", "at": i, "detail": "op %r: implementation %r, model %r (spec view equal)" % (op, c, mm)}
     if is_crash(crc) or crc == -999:
         nxt = ml[len(cl)] if len(cl) < len(ml) else ""
-        if nxt == "ub" or nxt.startswith("fault"):
+        if (nxt == "ub" or nxt.startswith("fault")) and getattr(fam, "model_trusted", True):
             return {"kind": "spec", "at": len(cl), "detail": "implementation aborted (rc=%s) at op %r exactly where the model predicts %s:\n%s" % (
                 crc, ops[len(cl)] if len(cl) < len(ops) else "?", nxt, cerr[-1500:])}
         return {"kind": "crash", "at": len(cl), "detail": "implementation aborted rc=%s after %d answers (op %r):\n%s" % (
@@ -79,7 +82,7 @@ def judge(fam, ops):
     if crc != 0:
         return {"kind": "crash", "at": len(cl), "detail": "implementation exit status %s:\n%s" % (crc, cerr[-1500:])}
     if len(cl) != len(ml):
-        if len(ml) < len(cl) and ml and (ml[-1] == "ub" or ml[-1].startswith("fault")):
+        if len(ml) < len(cl) and ml and (ml[-1] == "ub" or ml[-1].startswith("fault")) and getattr(fam, "model_trusted", True):
             return {"kind": "spec", "at": len(ml) - 1, "detail": "model predicts %s, implementation went on" % ml[-1]}
         return first_thm or first_model or {"kind": "model", "at": n, "detail": "answer counts differ: implementation %d, model %d" % (len(cl), len(ml))}
     return first_thm or first_model
@@ -136,6 +139,8 @@ def campaign(chk, fam, cases, proof_ok, proof_detail, signature_of=None, label="
     With batch > 1 several cases are concatenated (separated by a `reset` op) into one run of
     both sides; a batch that shows any difference is re-run case by case."""
     st = {"corr": None, "thm": None, "found": False}
+    if getattr(chk, "model_untrusted", False):
+        fam.model_trusted = False
 
     def handle(ops, counted):
         """judge one case; True when both sides and the spec agree on it"""
